@@ -98,6 +98,14 @@ func validateEncryptedDataLength(data []byte) error {
 func deriveDecryptionKey(privKey *x25519.PrivateKey, ephemeralPubBytes []byte) ([32]byte, error) {
 	log.WithField("ephemeral_pub", ephemeralPubBytes).Debug("Extracted ephemeral public key")
 
+	// X25519 masks the most significant bit of the peer's public key (RFC 7748), so a key with
+	// that bit set is a second encoding of the same key and nothing else authenticates these
+	// 32 bytes. Conforming implementations always emit the bit clear: reject anything else.
+	if n := len(ephemeralPubBytes); n == x25519.PublicKeySize && ephemeralPubBytes[n-1]&0x80 != 0 {
+		log.Warn("Non-canonical ephemeral public key")
+		return [32]byte{}, oops.Errorf("non-canonical ephemeral public key: most significant bit set")
+	}
+
 	sharedSecret, err := privKey.SharedKey(ephemeralPubBytes)
 	if err != nil {
 		log.WithError(err).Error("X25519 key exchange failed")
